@@ -395,6 +395,12 @@ func c15ObserverPrograms(r *Rng, n int) []cProg {
 		{Kind: "writefile", P: "x", Data: []byte{7}, Perm: 0o644}, {Kind: "writefile", P: "f", Data: []byte{7}, Perm: 0o644},
 	}
 	var out []cProg
+	// MkdirAll of several missing levels is one transaction per level, parents first: an observer that looks at the child
+	// and then at the parent can see (missing, missing), (missing, there) or (there, there) -- never a child without its parent
+	out = append(out,
+		cProg{{{Kind: "mkdirall", P: "x/y", Perm: 0o755}}, {{Kind: "stat", P: "x/y"}, {Kind: "stat", P: "x"}}},
+		cProg{{{Kind: "mkdirall", P: "d/x/y", Perm: 0o755}}, {{Kind: "stat", P: "d/x/y"}, {Kind: "stat", P: "d/x"}}},
+		cProg{{{Kind: "mkdirall", P: "x/y/g", Perm: 0o755}}, {{Kind: "stat", P: "x/y/g"}, {Kind: "stat", P: "x/y"}}})
 	for i := 0; i < n; i++ {
 		m := muts[(i+r.Intn(2))%len(muts)]
 		a, b := m.P, m.P
